@@ -4,7 +4,7 @@ Require Extraction.
 Require Import ExtrOcamlBasic ExtrOcamlZBigInt ExtrOcamlNatBigInt.
 From LZ4V Require Import Spec.BlockSpec Spec.BlockFast.
 From LZ4V Require Import Model.DecSem.
-From LZ4V Require Import Gen.Consts Model.Mem Model.Dec Model.DecApi Model.DecStream Model.DecFast Model.DecInplace.
+From LZ4V Require Import Gen.Consts Model.Mem Model.Dec Model.DecApi Model.DecStream Model.DecFast Model.DecInplace Model.DecRingWrap.
 Extraction Language OCaml.
 Extraction "lz4v.ml"
   spec_decode_fast strict_valid_fast
@@ -12,4 +12,5 @@ Extraction "lz4v.ml"
   setStreamDecode decompress_safe_continue
   decompress_fast_usingDict decompress_fast_continue
   specified_output
-  decompress_safe_inplace.
+  decompress_safe_inplace
+  decompress_ring_wrap.
